@@ -50,71 +50,97 @@ template <typename A,typename B,typename F> static Wire pure2(const A& a,const B
     return o;
 }
 
+
+// Result of a method that returns a NEW object: (a) writing into the result leaves every operand bitwise unchanged,
+// (b) writing into an operand leaves the result unchanged, and the buffers are distinct.  Markers: 98 = (a) violated or
+// shared buffer, 97 = (b) violated.  Operands are restored afterwards.
+static Wire outOf(const Vector& v) { return outVec(v); }
+static Wire outOf(const Matrix& M) { return outDense(M); }
+static Wire outOf(const SymMatrix& S) { return outSym(S); }
+template <typename T> static void poke(const T& x) { for (size_t k=0;k<x.size();++k) x.data()[k]=x.data()[k]*2.0+1.0; }
+template <typename T> static bool unchanged(const T& x,const std::vector<double>& s) { return x.size()==s.size() && (s.empty() || memcmp(x.data(),s.data(),s.size()*sizeof(double))==0); }
+template <typename T> static void restore(const T& x,const std::vector<double>& s) { if (!s.empty()) memcpy(x.data(),s.data(),s.size()*sizeof(double)); }
+template <typename R> static Wire fresh(const R& res) { return outOf(res); }
+template <typename R,typename A> static Wire fresh(const R& res,const A& a) {
+    Wire o=outOf(res); bool bad_a=false, bad_b=false;
+    if (res.size()>0 && a.size()>0 && (const void*)res.data()==(const void*)a.data()) bad_a=true;
+    auto sa=snap(a); poke(res); if (!unchanged(a,sa)) bad_a=true; restore(a,sa);
+    auto sr=snap(res); poke(a); if (!unchanged(res,sr)) bad_b=true; restore(a,sa);
+    if (bad_a) o.push_back(98); if (bad_b) o.push_back(97); return o;
+}
+template <typename R,typename A,typename B> static Wire fresh(const R& res,const A& a,const B& b) {
+    Wire o=outOf(res); bool bad_a=false, bad_b=false;
+    if (res.size()>0 && ((a.size()>0 && (const void*)res.data()==(const void*)a.data()) || (b.size()>0 && (const void*)res.data()==(const void*)b.data()))) bad_a=true;
+    auto sa=snap(a); auto sb=snap(b); poke(res); if (!unchanged(a,sa) || !unchanged(b,sb)) bad_a=true; restore(a,sa); restore(b,sb);
+    auto sr=snap(res); poke(a); poke(b); if (!unchanged(res,sr)) bad_b=true; restore(a,sa); restore(b,sb);
+    if (bad_a) o.push_back(98); if (bad_b) o.push_back(97); return o;
+}
+
 static Wire c13(Reader& r) {
     ll op=r.z();
     switch (op) {
     case 1: { Matrix M=getDense(r); U i=getU(r), j=getU(r); const Matrix& C=M; return pure1(M,[&]{ return outZ(C(i,j)); }); }
     case 2: { Matrix M=getDense(r); U i=getU(r), j=getU(r); ll v=r.z(); return pure1(Vector(0),[&]{ M(i,j)=(double)v; return outDense(M); }); }
-    case 3: { Matrix M=getDense(r); U a=getU(r),b=getU(r),c=getU(r),d=getU(r); return pure1(M,[&]{ return outDense(M.submat(a,b,c,d)); }); }
+    case 3: { Matrix M=getDense(r); U a=getU(r),b=getU(r),c=getU(r),d=getU(r); return pure1(M,[&]{ return fresh(M.submat(a,b,c,d),M); }); }
     case 4: { Matrix M=getDense(r); U a=getU(r),b=getU(r); Matrix B=getDense(r); return pure1(B,[&]{ M.insertmat(a,b,B); return outDense(M); }); }
-    case 5: { Matrix M=getDense(r); U j=getU(r); return pure1(M,[&]{ return outVec(M.getcol(j)); }); }
+    case 5: { Matrix M=getDense(r); U j=getU(r); return pure1(M,[&]{ return fresh(M.getcol(j),M); }); }
     case 6: { Matrix M=getDense(r); U j=getU(r); Vector v=getVec(r); return pure1(v,[&]{ M.setcol(j,v); return outDense(M); }); }
-    case 7: { Matrix M=getDense(r); U i=getU(r); return pure1(M,[&]{ return outVec(M.getlin(i)); }); }
+    case 7: { Matrix M=getDense(r); U i=getU(r); return pure1(M,[&]{ return fresh(M.getlin(i),M); }); }
     case 8: { Matrix M=getDense(r); U i=getU(r); Vector v=getVec(r); return pure1(v,[&]{ M.setlin(i,v); return outDense(M); }); }
-    case 9: { Matrix A=getDense(r), B=getDense(r); return pure2(A,B,[&]{ return outDense(A*B); }); }
-    case 10:{ Matrix A=getDense(r); SymMatrix B=getSym(r); return pure2(A,B,[&]{ return outDense(A*B); }); }
-    case 11:{ Matrix A=getDense(r), B=getDense(r); return pure2(A,B,[&]{ return outDense(A+B); }); }
-    case 12:{ Matrix A=getDense(r), B=getDense(r); return pure2(A,B,[&]{ return outDense(A-B); }); }
-    case 13:{ Matrix A=getDense(r); ll x=r.z(); return pure1(A,[&]{ return outDense(A*(double)x); }); }
+    case 9: { Matrix A=getDense(r), B=getDense(r); return pure2(A,B,[&]{ return fresh(A*B,A,B); }); }
+    case 10:{ Matrix A=getDense(r); SymMatrix B=getSym(r); return pure2(A,B,[&]{ return fresh(A*B,A,B); }); }
+    case 11:{ Matrix A=getDense(r), B=getDense(r); return pure2(A,B,[&]{ return fresh(A+B,A,B); }); }
+    case 12:{ Matrix A=getDense(r), B=getDense(r); return pure2(A,B,[&]{ return fresh(A-B,A,B); }); }
+    case 13:{ Matrix A=getDense(r); ll x=r.z(); return pure1(A,[&]{ return fresh(A*(double)x,A); }); }
     case 14:{ Matrix A=getDense(r), B=getDense(r); return pure1(B,[&]{ A+=B; return outDense(A); }); }
     case 15:{ Matrix A=getDense(r), B=getDense(r); return pure1(B,[&]{ A-=B; return outDense(A); }); }
     case 16:{ Matrix A=getDense(r); ll x=r.z(); return pure1(Vector(0),[&]{ A*=(double)x; return outDense(A); }); }
-    case 17:{ Matrix A=getDense(r); Vector v=getVec(r); return pure2(A,v,[&]{ return outVec(A*v); }); }
-    case 18:{ Matrix A=getDense(r); Vector v=getVec(r); return pure2(A,v,[&]{ return outVec(A.tmult(v)); }); }
-    case 19:{ Matrix A=getDense(r), B=getDense(r); return pure2(A,B,[&]{ return outDense(A.tmult(B)); }); }
-    case 20:{ Matrix A=getDense(r), B=getDense(r); return pure2(A,B,[&]{ return outDense(A.multt(B)); }); }
-    case 21:{ Matrix A=getDense(r), B=getDense(r); return pure2(A,B,[&]{ return outDense(A.tmultt(B)); }); }
-    case 22:{ Matrix A=getDense(r); return pure1(A,[&]{ return outDense(A.transpose()); }); }
+    case 17:{ Matrix A=getDense(r); Vector v=getVec(r); return pure2(A,v,[&]{ return fresh(A*v,A,v); }); }
+    case 18:{ Matrix A=getDense(r); Vector v=getVec(r); return pure2(A,v,[&]{ return fresh(A.tmult(v),A,v); }); }
+    case 19:{ Matrix A=getDense(r), B=getDense(r); return pure2(A,B,[&]{ return fresh(A.tmult(B),A,B); }); }
+    case 20:{ Matrix A=getDense(r), B=getDense(r); return pure2(A,B,[&]{ return fresh(A.multt(B),A,B); }); }
+    case 21:{ Matrix A=getDense(r), B=getDense(r); return pure2(A,B,[&]{ return fresh(A.tmultt(B),A,B); }); }
+    case 22:{ Matrix A=getDense(r); return pure1(A,[&]{ return fresh(A.transpose(),A); }); }
     case 23:{ Matrix A=getDense(r); return pure1(A,[&]{ double f=A.frobenius_norm(); return Wire{ST_OK,(ll)std::llround(f*f)}; }); }
     case 24:{ Matrix A=getDense(r), B=getDense(r); return pure2(A,B,[&]{ return outZ(A.dot(B)); }); }
     case 25:{ Matrix A=getDense(r); ll x=r.z(); return pure1(Vector(0),[&]{ A.set((double)x); return outDense(A); }); }
-    case 26:{ SymMatrix S=getSym(r); return pure1(S,[&]{ return outDense(Matrix(S)); }); }
+    case 26:{ SymMatrix S=getSym(r); return pure1(S,[&]{ return fresh(Matrix(S),S); }); }
     case 27:{ Vector v=getVec(r); size_t m=r.n(), n=r.n(); return pure1(v,[&]{ return outDense(Matrix(v,m,n)); }); }
     case 30:{ Vector v=getVec(r); U i=getU(r); const Vector& c=v; return pure1(v,[&]{ return outZ(c(i)); }); }
-    case 31:{ Vector u=getVec(r), v=getVec(r); return pure2(u,v,[&]{ return outVec(u+v); }); }
-    case 32:{ Vector u=getVec(r), v=getVec(r); return pure2(u,v,[&]{ return outVec(u-v); }); }
-    case 33:{ Vector u=getVec(r); return pure1(u,[&]{ return outVec(-u); }); }
-    case 34:{ Vector u=getVec(r); ll x=r.z(); return pure1(u,[&]{ return outVec(u*(double)x); }); }
-    case 35:{ Vector u=getVec(r); ll x=r.z(); return pure1(u,[&]{ return outVec(u+(double)x); }); }
-    case 36:{ Vector u=getVec(r); ll x=r.z(); return pure1(u,[&]{ return outVec(u-(double)x); }); }
+    case 31:{ Vector u=getVec(r), v=getVec(r); return pure2(u,v,[&]{ return fresh(u+v,u,v); }); }
+    case 32:{ Vector u=getVec(r), v=getVec(r); return pure2(u,v,[&]{ return fresh(u-v,u,v); }); }
+    case 33:{ Vector u=getVec(r); return pure1(u,[&]{ return fresh(-u,u); }); }
+    case 34:{ Vector u=getVec(r); ll x=r.z(); return pure1(u,[&]{ return fresh(u*(double)x,u); }); }
+    case 35:{ Vector u=getVec(r); ll x=r.z(); return pure1(u,[&]{ return fresh(u+(double)x,u); }); }
+    case 36:{ Vector u=getVec(r); ll x=r.z(); return pure1(u,[&]{ return fresh(u-(double)x,u); }); }
     case 37:{ Vector u=getVec(r), v=getVec(r); return pure2(u,v,[&]{ return outZ(u*v); }); }
-    case 38:{ Vector u=getVec(r), v=getVec(r); return pure2(u,v,[&]{ return outVec(u.kmult(v)); }); }
-    case 39:{ Vector u=getVec(r), v=getVec(r); return pure2(u,v,[&]{ return outDense(u.outer_product(v)); }); }
+    case 38:{ Vector u=getVec(r), v=getVec(r); return pure2(u,v,[&]{ return fresh(u.kmult(v),u,v); }); }
+    case 39:{ Vector u=getVec(r), v=getVec(r); return pure2(u,v,[&]{ return fresh(u.outer_product(v),u,v); }); }
     case 40:{ Vector u=getVec(r); return pure1(u,[&]{ return outZ(u.sum()); }); }
     case 41:{ Vector u=getVec(r); return pure1(u,[&]{ double f=u.norm(); return Wire{ST_OK,(ll)std::llround(f*f)}; }); }
-    case 42:{ Vector u=getVec(r); U a=getU(r), b=getU(r); return pure1(u,[&]{ return outVec(u.subvect(a,b)); }); }
-    case 43:{ Vector v=getVec(r); Matrix M=getDense(r); return pure2(v,M,[&]{ return outVec(v*M); }); }
+    case 42:{ Vector u=getVec(r); U a=getU(r), b=getU(r); return pure1(u,[&]{ return fresh(u.subvect(a,b),u); }); }
+    case 43:{ Vector v=getVec(r); Matrix M=getDense(r); return pure2(v,M,[&]{ return fresh(v*M,v,M); }); }
     case 44:{ Vector u=getVec(r), v=getVec(r); return pure1(v,[&]{ u+=v; return outVec(u); }); }
     case 45:{ Vector u=getVec(r), v=getVec(r); return pure1(v,[&]{ u-=v; return outVec(u); }); }
     case 46:{ Vector u=getVec(r); ll x=r.z(); return pure1(Vector(0),[&]{ u*=(double)x; return outVec(u); }); }
     case 47:{ Vector u=getVec(r); ll x=r.z(); return pure1(Vector(0),[&]{ u.set((double)x); return outVec(u); }); }
     case 50:{ SymMatrix S=getSym(r); U i=getU(r), j=getU(r); const SymMatrix& C=S; return pure1(S,[&]{ return outZ(C(i,j)); }); }
     case 51:{ SymMatrix S=getSym(r); U i=getU(r), j=getU(r); ll v=r.z(); return pure1(Vector(0),[&]{ S(i,j)=(double)v; return outSym(S); }); }
-    case 52:{ SymMatrix S=getSym(r); U i=getU(r); return pure1(S,[&]{ return outVec(S.getlin(i)); }); }
+    case 52:{ SymMatrix S=getSym(r); U i=getU(r); return pure1(S,[&]{ return fresh(S.getlin(i),S); }); }
     case 53:{ SymMatrix S=getSym(r); U i=getU(r); Vector v=getVec(r); return pure1(v,[&]{ S.setlin(i,v); return outSym(S); }); }
-    case 54:{ SymMatrix S=getSym(r); U a=getU(r),b=getU(r),c=getU(r),d=getU(r); return pure1(S,[&]{ return outDense(S.submat(a,b,c,d)); }); }
-    case 55:{ SymMatrix S=getSym(r); U a=getU(r),b=getU(r); return pure1(S,[&]{ return outSym(S.submat(a,b)); }); }
-    case 56:{ SymMatrix A=getSym(r), B=getSym(r); return pure2(A,B,[&]{ return outSym(A+B); }); }
-    case 57:{ SymMatrix A=getSym(r), B=getSym(r); return pure2(A,B,[&]{ return outSym(A-B); }); }
-    case 58:{ SymMatrix A=getSym(r), B=getSym(r); return pure2(A,B,[&]{ return outDense(A*B); }); }
-    case 59:{ SymMatrix A=getSym(r); Matrix B=getDense(r); return pure2(A,B,[&]{ return outDense(A*B); }); }
-    case 60:{ SymMatrix A=getSym(r); Vector v=getVec(r); return pure2(A,v,[&]{ return outVec(A*v); }); }
-    case 61:{ SymMatrix A=getSym(r); ll x=r.z(); return pure1(A,[&]{ return outSym(A*(double)x); }); }
+    case 54:{ SymMatrix S=getSym(r); U a=getU(r),b=getU(r),c=getU(r),d=getU(r); return pure1(S,[&]{ return fresh(S.submat(a,b,c,d),S); }); }
+    case 55:{ SymMatrix S=getSym(r); U a=getU(r),b=getU(r); return pure1(S,[&]{ return fresh(S.submat(a,b),S); }); }
+    case 56:{ SymMatrix A=getSym(r), B=getSym(r); return pure2(A,B,[&]{ return fresh(A+B,A,B); }); }
+    case 57:{ SymMatrix A=getSym(r), B=getSym(r); return pure2(A,B,[&]{ return fresh(A-B,A,B); }); }
+    case 58:{ SymMatrix A=getSym(r), B=getSym(r); return pure2(A,B,[&]{ return fresh(A*B,A,B); }); }
+    case 59:{ SymMatrix A=getSym(r); Matrix B=getDense(r); return pure2(A,B,[&]{ return fresh(A*B,A,B); }); }
+    case 60:{ SymMatrix A=getSym(r); Vector v=getVec(r); return pure2(A,v,[&]{ return fresh(A*v,A,v); }); }
+    case 61:{ SymMatrix A=getSym(r); ll x=r.z(); return pure1(A,[&]{ return fresh(A*(double)x,A); }); }
     case 62:{ SymMatrix A=getSym(r), B=getSym(r); return pure1(B,[&]{ A+=B; return outSym(A); }); }
     case 63:{ SymMatrix A=getSym(r), B=getSym(r); return pure1(B,[&]{ A-=B; return outSym(A); }); }
     case 64:{ SymMatrix A=getSym(r); ll x=r.z(); return pure1(Vector(0),[&]{ A*=(double)x; return outSym(A); }); }
-    case 65:{ Matrix M=getDense(r); return pure1(M,[&]{ return outSym(SymMatrix(M)); }); }
-    case 66:{ SymMatrix S=getSym(r); U a=getU(r),b=getU(r),c=getU(r),d=getU(r); return pure1(S,[&]{ return outDense(S(a,b,c,d)); }); }
+    case 65:{ Matrix M=getDense(r); return pure1(M,[&]{ return fresh(SymMatrix(M),M); }); }
+    case 66:{ SymMatrix S=getSym(r); U a=getU(r),b=getU(r),c=getU(r),d=getU(r); return pure1(S,[&]{ return fresh(S(a,b,c,d),S); }); }
     case 70:{ // copy semantics: A; B=A (copy constructor, shares the buffer); C(A,DEEP_COPY); write cell k of who; views of A,B,C
         Vector d=getVec(r); size_t who=r.n(), k=r.n(); ll x=r.z(); size_t kind=d.size()%3; Wire o{ST_OK,(ll)d.size()};
         auto run=[&](auto& A,auto& B,auto& C) { double* t=(who==0)?A.data():(who==1)?C.data():B.data(); if (k<d.size()) t[k]=(double)x;
@@ -151,6 +177,7 @@ static DV svals(const DM& A) { DM c=A; size_t k=std::min(A.m,A.n); DV s(k),sup(k
 static double ratio(double a,double b) { return (b>0) ? a/b : (a==0 ? 0.0 : INFINITY); }
 static double condn(const DV& s) { return (s.empty() || !(s.back()>0)) ? INFINITY : s.front()/s.back(); }
 
+static double bitwise_same(const Matrix& M,const std::vector<double>& b) { return (M.size()==b.size() && (b.empty() || memcmp(b.data(),M.data(),b.size()*sizeof(double))==0)) ? 0.0 : INFINITY; }
 static FWire c13l(Reader& r,FReader&) {
     ll kind=r.z(); size_t m=r.n(), n=r.n(), rk=r.n(); Lcg g((unsigned long long)r.z());
     FWire out; out.z=Wire{ST_OK};
@@ -175,7 +202,8 @@ static FWire c13l(Reader& r,FReader&) {
             if (s[k-1]/s[k]<1.5) return discard();
             reltol=std::sqrt(s[k-1]*s[k])/(std::max(m,n)*s.front()); keep=k;
         }
-        DM P=ofM(toM(A).pinverse(reltol));
+        const Matrix MA=toM(A); std::vector<double> before(MA.data(),MA.data()+MA.size());
+        DM P=ofM(MA.pinverse(reltol)); const double pure=bitwise_same(MA,before);
         if (P.m!=n || P.n!=m) { out.z=Wire{6}; return out; }
         // reference: truncated SVD pseudo-inverse of rank `keep`
         DM c=A; size_t q=std::min(m,n); DM U(m,q),Vt(q,n); DV sv(q),sup(q+1);
@@ -186,18 +214,19 @@ static FWire c13l(Reader& r,FReader&) {
         double nA=std::max(nrm(Ak),1e-300), nP=std::max(nrm(P),1e-300);
         DM AP=mul(Ak,P), PA=mul(P,Ak);
         out.f={cnd, ratio(nrm(sub(mul(AP,Ak),Ak)),nA), ratio(nrm(sub(mul(PA,P),P)),nP), ratio(nrm(sub(tr(AP),AP)),nA*nP), ratio(nrm(sub(tr(PA),PA)),nA*nP),
-               ratio(nrm(sub(P,Pk)),std::max(nrm(Pk),1e-300))};
+               ratio(nrm(sub(P,Pk)),std::max(nrm(Pk),1e-300)), pure};
         return out; }
     case 3: {   // Matrix::svd : reconstruction, orthogonality, ordering (complete and economic)
         DM A = (rk==std::min(m,n)) ? randint(g,m,n) : mul(randint(g,m,rk),randint(g,rk,n));
         bool complete = g.next(0,1)==1; size_t q=std::min(m,n);
-        Matrix U,V; SparseMatrix S; toM(A).svd(U,S,V,complete);
+        const Matrix MA=toM(A); std::vector<double> before(MA.data(),MA.data()+MA.size());
+        Matrix U,V; SparseMatrix S; MA.svd(U,S,V,complete); const double pure=bitwise_same(MA,before);
         if (U.nlin()!=m || U.ncol()!=m || V.nlin()!=n || V.ncol()!=n || S.nlin()!=m || S.ncol()!=n) { out.z=Wire{6}; return out; }
         DM Uq(m,q),Vq(q,n),Sq(q,q); double ord=0; DV s(q);
         for (size_t t=0;t<q;++t) { s[t]=S(t,t); Sq(t,t)=s[t]; if (!(s[t]>=0) || (t && !(s[t-1]>=s[t]))) ord=INFINITY; for (size_t i=0;i<m;++i) Uq(i,t)=U(i,t); for (size_t j=0;j<n;++j) Vq(t,j)=V(t,j); }
         DV ref=svals(A); double ds=0; for (size_t t=0;t<q;++t) ds=std::max(ds,std::fabs(ref[t]-s[t]));
         double nA=std::max(nrm(A),1e-300);
-        out.f={1.0, ratio(nrm(sub(mul(mul(Uq,Sq),Vq),A)),nA), nrm(sub(mul(tr(Uq),Uq),eye(q))), nrm(sub(mul(Vq,tr(Vq)),eye(q))), ord, ratio(ds,nA)};
+        out.f={1.0, ratio(nrm(sub(mul(mul(Uq,Sq),Vq),A)),nA), nrm(sub(mul(tr(Uq),Uq),eye(q))), nrm(sub(mul(Vq,tr(Vq)),eye(q))), ord, ratio(ds,nA), pure};
         if (complete) { DM Uf=ofM(U),Vf=ofM(V); out.f.push_back(nrm(sub(mul(tr(Uf),Uf),eye(m)))); out.f.push_back(nrm(sub(mul(Vf,tr(Vf)),eye(n)))); }
         return out; }
     case 4: case 5: case 6: case 7: {   // symmetric: solveLin (vector and matrix), inverse/invert, det, posdefinverse
@@ -212,8 +241,9 @@ static FWire c13l(Reader& r,FReader&) {
             Vector x=SA.solveLin(b); DM xv(m,1); for (unsigned i=0;i<m;++i) xv(i,0)=x(i);
             DM b0(m,1); for (unsigned i=0;i<m;++i) b0(i,0)=B(i,0);
             double bpure=0; for (unsigned i=0;i<m;++i) if (b(i)!=B(i,0)) bpure=INFINITY;
+            const double pure_v = memcmp(before.data(),SA.data(),before.size()*sizeof(double))==0 ? 0.0 : INFINITY;
             Matrix RHS=toM(B); Matrix Xm=SA.solveLin(RHS);
-            out.f={cond, ratio(nrm(sub(mul(A,xv),b0)),nA*std::max(nrm(xv),1e-300)), ratio(nrm(sub(mul(A,ofM(Xm)),B)),nA*std::max(nrm(ofM(Xm)),1e-300)), bpure};
+            out.f={cond, ratio(nrm(sub(mul(A,xv),b0)),nA*std::max(nrm(xv),1e-300)), ratio(nrm(sub(mul(A,ofM(Xm)),B)),nA*std::max(nrm(ofM(Xm)),1e-300)), bpure, pure_v};
         } else if (kind==5) {
             DM I=ofS(SA.inverse()); SymMatrix C(SA,DEEP_COPY); C.invert(); DM I2=ofS(C);
             out.f={cond, nrm(sub(mul(A,I),eye(m)))/std::sqrt((double)m), nrm(sub(mul(A,I2),eye(m)))/std::sqrt((double)m)};
@@ -231,10 +261,11 @@ static FWire c13l(Reader& r,FReader&) {
     case 9: {   // nullspace_projector of a wide full-row-rank matrix: P^2=P, M P = 0, P symmetric, trace = n-m
         if (m>=n) { size_t t=m; m=n; n=t; if (m==n) ++n; }
         DM A=randint(g,m,n); DV s=svals(A); double cond=condn(s); if (!(cond<1e8)) return discard();
-        DM P=ofM(nullspace_projector(toM(A)));
+        const Matrix MA=toM(A); std::vector<double> before(MA.data(),MA.data()+MA.size());
+        DM P=ofM(nullspace_projector(MA)); const double pure=bitwise_same(MA,before);
         if (P.m!=n || P.n!=n) { out.z=Wire{6}; return out; }
         double trc=0; for (size_t i=0;i<n;++i) trc+=P(i,i);
-        out.f={cond, nrm(sub(mul(P,P),P)), ratio(nrm(mul(A,P)),nrm(A)), nrm(sub(tr(P),P)), std::fabs(trc-(double)(n-m))};
+        out.f={cond, nrm(sub(mul(P,P),P)), ratio(nrm(mul(A,P)),nrm(A)), nrm(sub(tr(P),P)), std::fabs(trc-(double)(n-m)), pure};
         return out; }
     }
     out.z=Wire{-1}; return out;
